@@ -89,6 +89,52 @@ class SourceTree:
             self._ast[rel] = mod
         return self._ast[rel]
 
+    def rel_of(self, mod):
+        for rel, m in self._ast.items():
+            if m is mod:
+                return rel
+        return None
+
+    def resolve_import(self, mod, name, depth=0):
+        """a repository function bound to `name` in module `mod` by a (relative or absolute) `from ... import`: (FunctionDef, defining module) or None"""
+        rel = self.rel_of(mod)
+        if rel is None or depth > 3:
+            return None
+        for st in mod.body:
+            if not isinstance(st, ast.ImportFrom):
+                continue
+            for al in st.names:
+                if (al.asname or al.name) != name:
+                    continue
+                parts = rel.split('/')[:-1]
+                if st.level > 0:
+                    base = parts[:len(parts) - (st.level - 1)] if st.level > 1 else parts
+                elif st.module and st.module.split('.')[0] == 'atomman':
+                    base = []
+                else:
+                    continue
+                modparts = (st.module.split('.') if st.module else [])
+                cands = []
+                stem = '/'.join(base + modparts)
+                if stem:
+                    cands += [stem + '.py', stem + '.pyx', stem + '/__init__.py']
+                # `from . import name` / `from .pkg import name` where name is itself a module or re-exported
+                cands += ['/'.join(base + modparts + [al.name]) + '.py', '/'.join(base + modparts + [al.name]) + '/__init__.py']
+                for c in cands:
+                    if not self.exists(c):
+                        continue
+                    try:
+                        m2 = self.ast(c)
+                    except AnalysisError:
+                        continue
+                    for n2 in m2.body:
+                        if isinstance(n2, ast.FunctionDef) and n2.name == al.name:
+                            return n2, m2
+                    r = self.resolve_import(m2, al.name, depth + 1)
+                    if r is not None:
+                        return r
+        return None
+
     def files(self, pattern='atomman/**/*.py'):
         out = set()
         for dp, dn, fn in os.walk(os.path.join(self.root, 'atomman')):
@@ -220,6 +266,8 @@ class Ctx:
         self.prop = prop
         self.tier = tier
         self.tree = tree or SourceTree()
+        from . import symx as _symx
+        _symx.EXTERNAL_RESOLVER = self.tree.resolve_import       # functions imported from other repository modules are inlined from their source
         self.obs = []
         self.notes = []
         self.functions = set()
